@@ -163,4 +163,47 @@ pub fn run(ctx: &mut Ctx) {
         }
     }
     large(ctx);
+    // ---- decoded graphs whose terms are flagged obsolete / replaced while still linked: a walk does not look at flags
+    for n in 2..=4usize {
+        let dags = all_dags(n);
+        let pool = super::c01::POOL_ROOTS;
+        ctx.space(&format!("binary/D{n}/flagged-terms"), &format!("{} labelled DAGs over {:?} decoded from a v3 file x (each single term | all terms) flagged obsolete and replaced by the next term x all ordered pairs", dags.len(), &pool[..n]));
+        for d in &dags {
+            if !ctx.take() {
+                continue;
+            }
+            ctx.state();
+            if nontrivial(d) {
+                ctx.nontrivial();
+            }
+            let mut base = Facts::from_dag(d, &pool);
+            base.version = (2024, 2, 29);
+            let ids: Vec<u32> = base.terms.iter().map(|t| t.id).collect();
+            for k in 0..=n {
+                let mut f = base.clone();
+                for i in 0..n {
+                    if i == k || k == n {
+                        f.terms[i].obsolete = true;
+                        f.terms[i].replacement = Some(ids[(i + 1) % n]);
+                    }
+                }
+                let r = RefOnt::derive(&f);
+                ctx.transitions(f.n_steps() + (n * n * 7) as u64);
+                ctx.execs((n * n) as u64);
+                ctx.validateds((n * n) as u64);
+                let Ok(Ok(ont)) = drive::from_bytes(&crate::encode::encode(&f, &crate::encode::EncOpts::v(3))) else {
+                    ctx.violation("Ontology::from_bytes", "[binary v3] cannot decode a file laid out as documented", json!({"case": f.to_json()}));
+                    continue;
+                };
+                match guard(|| check_dag(&ont, &r)) {
+                    Ok(None) => {}
+                    Ok(Some((site, sig, det))) => ctx.violation(&site, &format!("[flagged terms] {sig}"), json!({"facts": f.to_json(), "dag": d.describe(), "difference": det})),
+                    Err(p) => ctx.violation("HpoTerm::path_to_term", "[flagged terms] panics", json!({"facts": f.to_json(), "dag": d.describe(), "observed": p})),
+                }
+            }
+            ctx.sample(|| json!({"dag": d.describe(), "ids": &pool[..n], "flag patterns": n + 1}));
+        }
+    }
+    // ---- sequences of ontologies built one after the other at the same address
+    super::common::ontology_sequences(ctx, "builder", Mode::Minimal, &mut |ont, r| check_dag(ont, r));
 }
